@@ -45,6 +45,10 @@ pub struct ModScript {
   pub direct: Option<bool>,
   /// log of calls: ("auth", token) / ("payload", from|channel|hex) / ("event", kind|channel|nid|owner) / ("direct", from|hex)
   pub calls: Vec<(String, String)>,
+  /// latency control: while `hold` is set every call parks until the harness releases it (`Some(true)`: answer as
+  /// scripted, `Some(false)`: fail) — the real handler is suspended inside the modulator call meanwhile
+  pub hold: bool,
+  pub parked: Vec<(String, tokio::sync::oneshot::Sender<bool>)>,
 }
 
 #[derive(Debug)]
@@ -64,8 +68,39 @@ impl ScriptedModulator {
         auth: AuthS::Failure,
         direct: Some(true),
         calls: Vec::new(),
+        hold: false,
+        parked: Vec::new(),
       })),
       pool: Pool::new(64, max_payload.max(1)),
+    }
+  }
+  /// parks the calling handler while `hold` is set; `false` = the harness decided that this call fails
+  async fn gate(&self, what: String) -> bool {
+    let rx = {
+      let mut s = self.script.lock().unwrap();
+      if !s.hold {
+        return true;
+      }
+      let (tx, rx) = tokio::sync::oneshot::channel();
+      s.parked.push((what, tx));
+      rx
+    };
+    rx.await.unwrap_or(false)
+  }
+  pub fn set_hold(&self, hold: bool) {
+    self.script.lock().unwrap().hold = hold;
+  }
+  pub fn parked(&self) -> Vec<String> {
+    self.script.lock().unwrap().parked.iter().map(|p| p.0.clone()).collect()
+  }
+  /// lets the `i`-th parked call return (ok = as scripted, !ok = error)
+  pub fn release(&self, i: usize, ok: bool) {
+    let p = {
+      let mut s = self.script.lock().unwrap();
+      if i < s.parked.len() { Some(s.parked.remove(i)) } else { None }
+    };
+    if let Some((_, tx)) = p {
+      let _ = tx.send(ok);
     }
   }
   async fn buffer(&self, bytes: &[u8]) -> PoolBuffer {
@@ -84,6 +119,9 @@ impl narwhal_modulator::Modulator for ScriptedModulator {
     Ok(self.script.lock().unwrap().ops)
   }
   async fn authenticate(&self, r: AuthRequest) -> anyhow::Result<AuthResponse> {
+    if !self.gate(format!("auth {}", r.token)).await {
+      anyhow::bail!("modulator call failed (latency script)");
+    }
     let a = {
       let mut s = self.script.lock().unwrap();
       s.calls.push(("auth".into(), r.token.to_string()));
@@ -100,6 +138,9 @@ impl narwhal_modulator::Modulator for ScriptedModulator {
     &self,
     r: ForwardBroadcastPayloadRequest,
   ) -> anyhow::Result<ForwardBroadcastPayloadResponse> {
+    if !self.gate(format!("payload {} {}", r.from, r.channel_handler)).await {
+      anyhow::bail!("modulator call failed (latency script)");
+    }
     let v = {
       let mut s = self.script.lock().unwrap();
       s.calls.push(("payload".into(), format!("{}|{}|{}", r.from, r.channel_handler, hex(r.payload.as_slice()))));
@@ -115,6 +156,18 @@ impl narwhal_modulator::Modulator for ScriptedModulator {
     }
   }
   async fn forward_event(&self, r: ForwardEventRequest) -> anyhow::Result<ForwardEventResponse> {
+    {
+      let e = &r.event;
+      let what = format!(
+        "event {} {} {}",
+        e.kind,
+        e.channel.as_ref().map(|c| c.to_string()).unwrap_or_default(),
+        e.nid.as_ref().map(|c| c.to_string()).unwrap_or_default()
+      );
+      if !self.gate(what).await {
+        anyhow::bail!("modulator call failed (latency script)");
+      }
+    }
     let ok = {
       let mut s = self.script.lock().unwrap();
       let e = &r.event;
@@ -133,6 +186,9 @@ impl narwhal_modulator::Modulator for ScriptedModulator {
     if ok { Ok(ForwardEventResponse {}) } else { anyhow::bail!("scripted event failure") }
   }
   async fn send_private_payload(&self, r: SendPrivatePayloadRequest) -> anyhow::Result<SendPrivatePayloadResponse> {
+    if !self.gate(format!("direct {}", r.from)).await {
+      anyhow::bail!("modulator call failed (latency script)");
+    }
     let d = {
       let mut s = self.script.lock().unwrap();
       s.calls.push(("direct".into(), format!("{}|{}", r.from, hex(r.payload.as_slice()))));
@@ -349,6 +405,21 @@ impl Srv {
   /// let the server run until nothing is ready (virtual time advances by `ms`)
   pub async fn quiesce(&self, ms: u64) {
     tokio::time::sleep(Duration::from_millis(ms)).await;
+  }
+
+  /// like `quiesce`, but does not rely on the runtime ever becoming idle (a task that keeps re-waking itself — e.g.
+  /// readers of an `async_lock::RwLock` chain-notifying each other while a writer holds it — would otherwise keep the
+  /// paused clock from auto-advancing): run ready tasks for a bounded number of scheduler turns, move the clock, repeat
+  pub async fn settle(&self, ms: u64) {
+    for _ in 0..60 {
+      tokio::task::yield_now().await;
+    }
+    if ms > 0 {
+      tokio::time::advance(Duration::from_millis(ms)).await;
+    }
+    for _ in 0..60 {
+      tokio::task::yield_now().await;
+    }
   }
 
   /// everything each connection has received since the last call: (frames, saw_eof_now)
